@@ -28,16 +28,40 @@ type c13Access struct {
 type c13Mem struct {
 	id  int
 	log *[]c13Access
+	w   *c13World // for the memory's own bus access (see c13World.nest)
 }
 
 func c13Val(id int, a uint32) byte {
 	return byte(a*7+uint32(id)*61+3) ^ byte(a>>8)*5 ^ byte(a>>16)*3 ^ byte(id<<6)
 }
 func (m *c13Mem) Read(a uint32) byte {
+	if m.w != nil && m.w.inNest {
+		return c13Val(m.id, a)
+	}
 	*m.log = append(*m.log, c13Access{m.id, a, false, 0})
+	m.nested()
 	return c13Val(m.id, a)
 }
-func (m *c13Mem) Write(a uint32, v byte) { *m.log = append(*m.log, c13Access{m.id, a, true, v}) }
+func (m *c13Mem) Write(a uint32, v byte) {
+	if m.w != nil && m.w.inNest {
+		return
+	}
+	*m.log = append(*m.log, c13Access{m.id, a, true, v})
+	m.nested()
+}
+
+// nested: while serving an access the memory makes a bus access of its own at another attached address
+// (a device that forwards a mirror does this); the bus must not lose its place in the outer operation
+func (m *c13Mem) nested() {
+	if w := m.w; w != nil && w.nest {
+		w.inNest = true
+		func() {
+			defer func() { _ = recover() }()
+			w.b.EaRead(w.nestAddr)
+		}()
+		w.inNest = false
+	}
+}
 func (m *c13Mem) Shutdown()              {}
 func (m *c13Mem) Size() uint32           { return 0 }
 func (m *c13Mem) Clear()                 {}
@@ -62,13 +86,17 @@ type c13World struct {
 	b    *bus.Bus
 	mems []*c13Mem
 	log  []c13Access
+	// nest: the memories re-enter the bus at nestAddr during every access
+	nest     bool
+	inNest   bool
+	nestAddr uint32
 }
 
 func c13New(nm int) *c13World {
 	w := &c13World{}
 	w.b, _ = bus.New()
 	for i := 0; i < nm; i++ {
-		w.mems = append(w.mems, &c13Mem{id: i + 1, log: &w.log})
+		w.mems = append(w.mems, &c13Mem{id: i + 1, log: &w.log, w: w})
 	}
 	return w
 }
@@ -208,6 +236,15 @@ func c13Read24(w *c13World, a uint32, owner func(uint32) int) (sig, what string)
 
 func c13CheckState(w *c13World, m *c13Model, report func(sig, what, probe string)) (evals int64) {
 	win := m.win
+	// the memories call back into the bus at the highest attached address of the window
+	w.nest = false
+	for i := len(m.owners) - 1; i >= 0; i-- {
+		if m.owners[i] != 0 {
+			w.nest, w.nestAddr = true, win.lo+uint32(i)*16+9
+			break
+		}
+	}
+	defer func() { w.nest = false }()
 	// byte-wise routing
 	for a := win.lo; ; a++ {
 		own := m.owner(a)
@@ -693,7 +730,7 @@ func runC13(r *report.Run) {
 	r.Set("traces_validated_against_impl", transitions)
 	r.Set("evaluations", evals)
 	r.Set("distinct_nontrivial", states)
-	r.Set("rule", "BFS to fixpoint over routing states (owner of each 16-byte window segment) for each window position; every transition is a real Attach on a fresh real Bus reached by replaying the shortest path; in every state every byte address of window+guards is read and written, EaRead24_wrap is called from every window address (and across the bank wrap in the large-range scenarios) and EaDump is called for every start<=end; evaluations counts those per-state calls. The library's own memory.RAM and memory.ROM objects (which subtract their offset from the full address) are attached side by side and overlapping at seven bases (each object once across a bank edge) and every address is read, written and dumped against a plain owner map. The second bus implementation, cpualt.Bus, has no Attach result, alignment rule or EaDump and treats unattached cells as open bus, so only the routing clause applies to it: BFS to a fixpoint over (reader owner, writer owner) per window cell through real AttachReader/AttachWriter calls, every address probed through Read8/16/24, Write8/16/24, EaRead, EaWrite with logging closures (each byte must reach the most recently attached closure of its own cell with the full address)")
+	r.Set("rule", "BFS to fixpoint over routing states (owner of each 16-byte window segment) for each window position; every transition is a real Attach on a fresh real Bus reached by replaying the shortest path; in every state every byte address of window+guards is read and written (the instrumented memories make a bus read of their own at another attached address while serving each access), EaRead24_wrap is called from every window address (and across the bank wrap in the large-range scenarios) and EaDump is called for every start<=end; evaluations counts those per-state calls. The library's own memory.RAM and memory.ROM objects (which subtract their offset from the full address) are attached side by side and overlapping at seven bases (each object once across a bank edge) and every address is read, written and dumped against a plain owner map. The second bus implementation, cpualt.Bus, has no Attach result, alignment rule or EaDump and treats unattached cells as open bus, so only the routing clause applies to it: BFS to a fixpoint over (reader owner, writer owner) per window cell through real AttachReader/AttachWriter calls, every address probed through Read8/16/24, Write8/16/24, EaRead, EaWrite with logging closures (each byte must reach the most recently attached closure of its own cell with the full address)")
 	r.Set("bounds", map[string]interface{}{"window_segments": segs, "memories": nm, "window_bases": bases, "fixpoint": true})
 	r.Set("exhaustive", true)
 	r.Sample(c13Case{Base: 0x10, Segs: segs, Mems: nm, Path: []c13Attach{{1, 0x10, 0x4F}, {2, 0x20, 0x2F}}, Probe: "dump 000018 00002f"})
